@@ -162,7 +162,7 @@ func registerAll() {
 
 func TestPropModels(t *testing.T) {
 	registerAll()
-	ev.Rapid(t, "models", ev.N(2000, 20000), genCase, judged)
+	ev.Rapid(t, "models", ev.N(6000, 20000), genCase, judged)
 }
 
 // exhaustive single-rule table: every rule kind x value class x annotation placement
